@@ -192,7 +192,15 @@ func (c *Ctx) Sample(v any) {
 
 // Violation reports a refutation. key names the scenario class (matched against
 // KNOWN_FINDINGS.txt); replay is serialised to a replay file.
+// machineStalled is srv.MachineStalled (core does not import srv).
+const machineStalled = "machine stalled"
+
 func (c *Ctx) Violation(key, what string, replay any) {
+	if strings.Contains(what, machineStalled) {
+		// a server that could not be started because nothing could (see srv.Start): no verdict
+		c.Inconclusive("start-up watchdog fired while a canary server could not start either (" + key + ")")
+		return
+	}
 	c.mu.Lock()
 	defer c.mu.Unlock()
 	for _, f := range c.findings {
